@@ -140,3 +140,137 @@ def state_measures(leaves, u, key=lambda v: v, lo0=0, hi0=1):
         ln, _ = leaf_length(cons, u, lo0, hi0)
         out[k] = ln if k not in out else out[k] + ln
     return out
+
+
+# --------------------------------------------------------------------------------------
+# division-free reasoning about leaf lengths that are ratios (mass / total mass)
+
+
+def frac(t):
+    """(num, den) with t == num/den, den a product of the divisors occurring in t (structurally shared divisors are not squared).
+    Supports +, -, *, / and numerals/atoms; raises Unsupported on If (callers resolve min/max with leaf_interval_resolved)."""
+    t = z3.simplify(t)
+    one = z3.RealVal(1)
+
+    def same(a, b):
+        return a.eq(b)
+
+    def go(e):
+        if z3.is_app(e):
+            k = e.decl().kind()
+            ch = e.children()
+            if k == z3.Z3_OP_DIV:
+                n1, d1 = go(ch[0])
+                n2, d2 = go(ch[1])
+                return n1 * d2, d1 * n2
+            if k == z3.Z3_OP_ADD or k == z3.Z3_OP_SUB:
+                parts = [go(c) for c in ch]
+                num, den = parts[0]
+                for i, (n, d) in enumerate(parts[1:]):
+                    sgn = -1 if k == z3.Z3_OP_SUB else 1
+                    if same(z3.simplify(den), z3.simplify(d)):
+                        num = num + sgn * n
+                    else:
+                        num, den = num * d + sgn * n * den, den * d
+                return num, den
+            if k == z3.Z3_OP_UMINUS:
+                n, d = go(ch[0])
+                return -n, d
+            if k == z3.Z3_OP_MUL:
+                num, den = one, one
+                for c in ch:
+                    n, d = go(c)
+                    num, den = num * n, den * d
+                return num, den
+            if k == z3.Z3_OP_ITE:
+                n1, d1 = go(ch[1])
+                n2, d2 = go(ch[2])
+                if same(z3.simplify(d1), z3.simplify(d2)):
+                    return z3.If(ch[0], n1, n2), d1
+                return z3.If(ch[0], n1 * d2, n2 * d1), d1 * d2
+            if k == z3.Z3_OP_TO_REAL:
+                return e, one
+        return e, one
+
+    n, d = go(t)
+    return z3.simplify(n), z3.simplify(d)
+
+
+def leaf_interval_resolved(ctx, cons, u, lo0=0, hi0=1):
+    """(lo, hi, side) of a leaf with the min over upper bounds / max over lower bounds resolved by solver queries under the
+    current path condition (no If terms); returns None when the order of the bounds is not determined."""
+    length, side = leaf_length(cons, u, lo0, hi0)  # validates the constraints; bounds are recomputed below
+    lowers, uppers = _bounds(cons, u, lo0, hi0)
+
+    def pick(cands, smallest):
+        for c in cands:
+            ok = True
+            for o in cands:
+                if o is c:
+                    continue
+                goal = (c <= o) if smallest else (c >= o)
+                r, _ = ctx.check_sat(SymBoolT(z3.Not(goal)), timeout_ms=5000)
+                if r != z3.unsat:
+                    ok = False
+                    break
+            if ok:
+                return c
+        return None
+
+    lo = pick(lowers, smallest=False)
+    hi = pick(uppers, smallest=True)
+    if lo is None or hi is None:
+        return None
+    return lo, hi, side
+
+
+class SymBoolT:
+    """minimal wrapper so that Context.check_sat accepts raw z3 bool terms"""
+
+    def __init__(self, t):
+        self.t = t
+
+
+def _bounds(cons, u, lo0, hi0):
+    """lists of lower / upper bound terms of a leaf (same normalisation as leaf_length)"""
+    lowers = [z3.RealVal(lo0)]
+    uppers = [z3.RealVal(hi0)]
+    flat = []
+    for c in cons:
+        todo = [z3.simplify(c)]
+        while todo:
+            x = todo.pop()
+            if z3.is_and(x):
+                todo.extend(x.children())
+            else:
+                flat.append(x)
+    for c in flat:
+        if z3.is_true(c) or not _contains(c, u):
+            continue
+        neg = False
+        while z3.is_not(c):
+            neg = not neg
+            c = c.arg(0)
+        k = c.decl().kind()
+        if z3.is_eq(c) or k == z3.Z3_OP_DISTINCT:
+            continue
+        l, r = c.children()
+        a, b = _affine(l - r, u)
+        if a == 0:
+            continue
+        op = {z3.Z3_OP_LT: "<", z3.Z3_OP_LE: "<", z3.Z3_OP_GT: ">", z3.Z3_OP_GE: ">"}[k]
+        if neg:
+            op = ">" if op == "<" else "<"
+        bound = z3.simplify(-b / z3.RealVal(a))
+        if (op == "<") == (a > 0):
+            uppers.append(bound)
+        else:
+            lowers.append(bound)
+    return lowers, uppers
+
+
+def ratio_identity(length_lo, length_hi, weight, target):
+    """division-free form of (hi - lo) * weight == target: returns (poly, den) with  poly == 0  <=>  identity, given den != 0"""
+    n, d = frac(length_hi - length_lo)
+    poly = z3.simplify(n * weight - target * d, som=True)
+    return poly, d
